@@ -61,7 +61,7 @@ def run(ctx):
         items.append((w, u)); origin.append("accept" if di < n_regular else "accept-optional")
         for k in range(len(u)):
             items.append((w, u[:k])); origin.append("prefix")
-        for sfx in (_json.SUFFIXES if ctx.thorough else rng.sample(_json.SUFFIXES, 8)) + _json.CONTROL_SUFFIXES:
+        for sfx in (_json.SUFFIXES if ctx.thorough else rng.sample(_json.SUFFIXES, 8)) + _json.CONTROL_SUFFIXES + _json.wide_suffixes(rng, w, 60 if ctx.thorough else 6):
             items.append((w, u + [sfx])); origin.append("suffix")
             items.append((w, u + [32, sfx])); origin.append("suffix")
             # leading whitespace must not buy tolerance for trailing garbage
@@ -75,6 +75,35 @@ def run(ctx):
             v = list(u); v[i] = 93 if u[i] == 125 else 125
             items.append((w, v)); origin.append("swap")
             items.append((w, u[:i] + u[i + 1:])); origin.append("drop")
+        if w != "1" and di < n_regular:
+            # wide builds: a structural or whitespace unit replaced by a unit with the same low byte / low half
+            # (validity of the result decided independently, as for swap/drop)
+            cand = [i for i, x in enumerate(u) if x in (91, 93, 123, 125, 44, 58, 34, 32, 9, 10, 13)]
+            for i in (cand if ctx.thorough else rng.sample(cand, min(4, len(cand)))):
+                v = list(u); v[i] = _json.alias_unit(rng, u[i], w)
+                items.append((w, v)); origin.append("swap")
+    # deep documents around powers of two and the 512-level mark: D, its last prefixes, one closing bracket
+    # dropped or swapped at several depths (a depth limit or a recursion guard must keep the failure protocol)
+    for depth in ((2, 31, 32, 33, 255, 256, 257, 510, 511, 512, 513, 514, 515, 600) if not ctx.thorough else list(range(1, 40)) + list(range(250, 260)) + list(range(505, 521)) + [600]):
+        for kind in range(3 if depth >= 2 else 2):
+            if kind == 0:
+                u = [91] * depth + [93] * depth
+            elif kind == 1:
+                u = [123, 34, 97, 34, 58] * depth + [123, 125] + [125] * depth
+            else:
+                u = [91] * (depth - 1) + [ord(c) for c in '[],[1,2],{}'] + [93] * (depth - 1)
+            items.append(("1", u)); origin.append("accept" if depth <= 512 else "accept-optional")
+            n = len(u)
+            for k in (n - 1, n - 2, n - 3, n - depth, n - depth - 1):
+                if 0 < k < n:
+                    items.append(("1", u[:k])); origin.append("prefix")
+            closers = [i for i, x in enumerate(u) if x in (93, 125)]
+            for i in (closers[0], closers[len(closers) // 2], closers[-1], closers[-2] if len(closers) > 1 else closers[-1]):
+                items.append(("1", u[:i] + u[i + 1:])); origin.append("drop")
+                v = list(u); v[i] = 93 if u[i] == 125 else 125
+                items.append(("1", v)); origin.append("swap")
+            items.append(("1", u + [93])); origin.append("suffix")
+            items.append(("1", u + [125])); origin.append("suffix")
     lines = _json.parse_lines(items)
     impl, model = _json.run_both(ctx, drv, h, lines, "prefix-suffix-bracket")
     import json as pyjson
@@ -118,5 +147,5 @@ def run(ctx):
 
 
 FINISH = dict(level="proof",
-              rule="for generated valid container documents D (depth<=3, all widths): every proper prefix, D + non-whitespace suffix (with and without a space), each closing bracket swapped/removed; plus fixed witnesses of the repaired defect; non-trivial = distinct input",
+              rule="for generated valid container documents D (depth<=3, all widths): every proper prefix, D + non-whitespace suffix (with and without a space; in wide builds also units whose low byte / low half is whitespace or structural), each closing bracket swapped/removed, structural units replaced by wide aliases; documents nested 2..600 deep (around 32/256/512) with last prefixes and dropped/swapped brackets; plus fixed witnesses of the repaired defect; non-trivial = distinct input",
               checker_cmd="cd lean && lake build Qentem.Props.C07 && lake env lean <#print axioms>")
